@@ -7,3 +7,8 @@ COMMON_NOTE = ("Trusted: Lean 4.33 kernel; axioms propext/Classical.choice/Quot.
                "Go/Lean compilers for the executable side. ")
 def level(pid, technique, text, note=""):
     LEVEL[pid] = {"technique": technique, "text": text, "note": COMMON_NOTE + note}
+
+import os, glob
+_d = os.path.join(os.path.dirname(os.path.abspath(__file__)), "manifest.d")
+for _f in sorted(glob.glob(os.path.join(_d, "*.py"))):
+    exec(compile(open(_f).read(), _f, "exec"), {"level": level, "NA": NA, "LEVEL": LEVEL})
